@@ -184,6 +184,18 @@ func parserKeywords(c *core.Ctx) map[string]string {
 				if !ok {
 					return
 				}
+				// the value may be an adapter applied to the parse function: byKeyword(T.parseX)
+				if call, ok := x.Value.(*ssa.Call); ok {
+					for _, a := range call.Call.Args {
+						if f := core.FuncValue(a); f != nil && core.PkgPathOf(f) == pkgParser {
+							if t := returnsType(f); t != "" {
+								if _, dup := res[k]; !dup {
+									res[k] = t
+								}
+							}
+						}
+					}
+				}
 				if f := core.FuncValue(x.Value); f != nil {
 					core.EachInstr(f, func(i2 ssa.Instruction) {
 						if call, ok := i2.(*ssa.Call); ok && call.Call.StaticCallee() != nil && core.PkgPathOf(call.Call.StaticCallee()) == pkgParser {
@@ -549,17 +561,31 @@ func RuleFGap(c *core.Ctx) {
 				return
 			}
 		}
-		if callee == nil || !(callee.Name() == "Write" && (core.PkgPathOf(callee) == pkgSPrinter)) {
+		// verbatim sinks: the printer's own Write, io.WriteString, a writer's Write/WriteString
+		verbatim := false
+		switch {
+		case callee != nil && callee.Name() == "Write" && core.PkgPathOf(callee) == pkgSPrinter:
+			verbatim = true
+		case callee != nil && callee.Pkg != nil && callee.Pkg.Pkg.Path() == "io" && callee.Name() == "WriteString":
+			verbatim = true
+		case callee != nil && callee.Pkg != nil && callee.Pkg.Pkg.Path() == "bufio" && (callee.Name() == "WriteString" || callee.Name() == "Write"):
+			verbatim = true
+		case call.Call.IsInvoke() && (call.Call.Method.Name() == "Write" || call.Call.Method.Name() == "WriteString"):
+			verbatim = true
+		}
+		if !verbatim {
 			c.Ob(rule, key, call.Pos(), core.FuncName(format), core.Violated, "text between directives passes through "+name+" on its way to the output: it is interpreted or transformed instead of copied byte for byte")
 			return
 		}
-		// the argument: []byte(text[lo:hi])
-		conv, ok := call.Call.Args[textArg].(*ssa.Convert)
-		if !ok {
-			c.Ob(rule, key, call.Pos(), core.FuncName(format), core.Violated, "the gap is not written as []byte(text[lo:hi])")
-			return
+		// the argument: text[lo:hi], as a string or converted to []byte
+		var sl *ssa.Slice
+		ok = false
+		switch x := call.Call.Args[textArg].(type) {
+		case *ssa.Convert:
+			sl, ok = x.X.(*ssa.Slice)
+		case *ssa.Slice:
+			sl, ok = x, true
 		}
-		sl, ok := conv.X.(*ssa.Slice)
 		if !ok {
 			c.Ob(rule, key, call.Pos(), core.FuncName(format), core.Violated, "the gap is not a plain slice of the file's text")
 			return
@@ -877,14 +903,32 @@ func RuleFCells(c *core.Ctx) {
 		}
 	}
 	sort.Strings(cells)
-	switches := []string{"TextRenderer.renderCell", "TextRenderer.minLengthCell", "CSVRenderer.renderCell"}
-	for _, sn := range switches {
-		fn := p.Func(pkgTable, sn)
-		if fn == nil {
-			c.Anchor(rule, "table."+sn)
+	// every dispatch over the cell types is exhaustive: a type switch on a value of
+	// type cell anywhere in the package covers every type that implements cell; a
+	// role implemented as a method of the cell interface is exhaustive by the type
+	// checker
+	nSwitch := 0
+	var switchFns []*ssa.Function
+	for _, fn := range p.SrcFuncs() {
+		if core.PkgPathOf(fn) != pkgTable {
 			continue
 		}
 		have := typeSwitchTypes(fn)
+		isCellSwitch := false
+		for name := range have {
+			for _, cell := range cells {
+				if name == cell {
+					isCellSwitch = true
+				}
+			}
+		}
+		if !isCellSwitch {
+			continue
+		}
+		nSwitch++
+		switchFns = append(switchFns, fn)
+		sn := strings.TrimPrefix(strings.TrimPrefix(core.FuncName(fn), "(*lib/common/table."), "(lib/common/table.")
+		sn = strings.Replace(sn, ")", "", 1)
 		for _, cell := range cells {
 			key := fmt.Sprintf("table.%s:case %s", sn, cell)
 			if _, ok := have[cell]; ok {
@@ -894,35 +938,77 @@ func RuleFCells(c *core.Ctx) {
 			}
 		}
 	}
-	// number cells: same string source for measuring and rendering
+	nMethods := iface.NumMethods()
+	c.Ob(rule, "table.cell:roles", cellObj.Pos(), "", verdictIf(nSwitch+nMethods-1 >= 3), fmt.Sprintf("%d type switches over the cell types (each checked for exhaustiveness) and %d interface methods besides isSep (exhaustive by the type checker): rendering as text, measuring and rendering as CSV are all dispatched over every cell type", nSwitch, nMethods-1))
+	// number cells: same string source for measuring and rendering. The cell's
+	// decimal reaches numToString directly, or a formatter parameter for which
+	// the caller passes the method value numToString.
 	num := p.Func(pkgTable, "TextRenderer.numToString")
-	for _, sn := range switches[:2] {
-		fn := p.Func(pkgTable, sn)
-		if fn == nil || num == nil {
-			continue
-		}
-		uses := false
-		core.EachInstr(fn, func(ins ssa.Instruction) {
-			if call, ok := ins.(*ssa.Call); ok && call.Call.StaticCallee() == num {
-				// argument: field n of the asserted numberCell
-				for v := range originSet(p, call.Call.Args[1], 0) {
-					if f, ok := v.(*ssa.Field); ok && core.FieldOf(f).Name() == "n" {
-						uses = true
-					}
-					if fa, ok := v.(*ssa.FieldAddr); ok && core.FieldOf(fa).Name() == "n" {
-						uses = true
+	numberCellN := p.Field(pkgTable, "numberCell", "n")
+	sites := 0
+	if num != nil && numberCellN != nil {
+		for _, fn := range p.SrcFuncs() {
+			if core.PkgPathOf(fn) != pkgTable {
+				continue
+			}
+			core.EachInstr(fn, func(ins ssa.Instruction) {
+				call, ok := ins.(*ssa.Call)
+				if !ok {
+					return
+				}
+				fromN := false
+				for _, a := range call.Call.Args {
+					for v := range originSet(p, a, 0) {
+						if f, ok := v.(*ssa.Field); ok && core.FieldOf(f) == numberCellN {
+							fromN = true
+						}
+						if fa, ok := v.(*ssa.FieldAddr); ok && core.FieldOf(fa) == numberCellN {
+							fromN = true
+						}
 					}
 				}
-			}
-		})
-		key := fmt.Sprintf("table.%s:number cells go through numToString", sn)
-		if uses {
-			c.Ob(rule, key, fn.Pos(), core.FuncName(fn), core.Discharged, "the cell's decimal is converted by numToString")
-		} else {
-			c.Ob(rule, key, fn.Pos(), core.FuncName(fn), core.Violated, "number cells are not "+map[string]string{"TextRenderer.renderCell": "rendered", "TextRenderer.minLengthCell": "measured"}[sn]+" with numToString: column width and rendered text disagree, lines get different widths")
+				if !fromN {
+					return
+				}
+				if call.Call.StaticCallee() == num {
+					sites++
+					return
+				}
+				// a formatter parameter: every caller passes numToString
+				if prm, ok := call.Call.Value.(*ssa.Parameter); ok {
+					idx := paramIndex(prm)
+					all, any := true, false
+					if n := p.CG.Nodes[fn]; n != nil {
+						for _, e := range n.In {
+							if !p.InModule(e.Caller.Func) || e.Site == nil {
+								continue
+							}
+							args := e.Site.Common().Args
+							if e.Site.Common().IsInvoke() {
+								args = append([]ssa.Value{e.Site.Common().Value}, args...)
+							}
+							if idx < len(args) {
+								any = true
+								if core.FuncValue(args[idx]) != num {
+									all = false
+								}
+							}
+						}
+					}
+					if all && any {
+						sites++
+					}
+				}
+			})
 		}
 	}
-	c.Floor(rule, 15)
+	key := "table:number cells are measured and rendered through numToString"
+	if sites >= 2 {
+		c.Ob(rule, key, 0, "", core.Discharged, fmt.Sprintf("%d sites convert a number cell's decimal with numToString (measuring and rendering)", sites))
+	} else {
+		c.Ob(rule, key, 0, "", core.Violated, fmt.Sprintf("only %d site converts a number cell's decimal with numToString: column width and rendered text disagree, lines get different widths", sites))
+	}
+	c.Floor(rule, 8)
 }
 
 // RuleFDirectiveTypes — the directive types agree along the pipeline: what
@@ -1117,39 +1203,16 @@ func RuleFWidthUnit(c *core.Ctx) {
 		})
 	}
 	// the width site and the padding site both count characters
-	for _, name := range []string{"minLengthCell", "renderCell"} {
-		fn := p.Func(pkgTable, "TextRenderer."+name)
-		key := "TextRenderer." + name + ":counts characters of the content"
-		if fn == nil {
-			c.Anchor(rule, "table.TextRenderer."+name)
-			continue
-		}
-		has := false
-		core.EachInstr(fn, func(ins ssa.Instruction) {
-			if call, ok := ins.(*ssa.Call); ok {
-				if callee := call.Call.StaticCallee(); callee != nil && callee.Pkg != nil && callee.Pkg.Pkg.Path() == "unicode/utf8" && callee.Name() == "RuneCountInString" {
-					for _, a := range call.Call.Args {
-						if ld, ok := a.(*ssa.Field); ok && fieldOfStruct(ld.X.Type(), ld.Field) == content {
-							has = true
-						}
-						if ld, ok := a.(*ssa.UnOp); ok {
-							if fa, ok := ld.X.(*ssa.FieldAddr); ok && core.FieldOf(fa) == content {
-								has = true
-							}
-						}
-					}
-				}
-			}
-		})
+	{
+		key := "table:text cells are measured in characters at the width site and at the padding site"
 		n++
-		if has {
-			c.Ob(rule, key, fn.Pos(), core.FuncName(fn), core.Discharged, "utf8.RuneCountInString(textCell.Content)")
+		if counted >= 2 {
+			c.Ob(rule, key, 0, "", core.Discharged, fmt.Sprintf("%d uses of utf8.RuneCountInString(textCell.Content)", counted))
 		} else {
-			c.Ob(rule, key, fn.Pos(), core.FuncName(fn), core.Violated, "this site does not count the characters of a text cell's content, the other one does: width and padding disagree for multi-byte names")
+			c.Ob(rule, key, 0, "", core.Violated, fmt.Sprintf("only %d use of utf8.RuneCountInString(textCell.Content): one of the two sites (column width, padding) does not count characters, so width and padding disagree for multi-byte names", counted))
 		}
 	}
-	_ = counted
-	c.Floor(rule, 6)
+	c.Floor(rule, 4)
 }
 
 func fieldOfStruct(t types.Type, i int) *types.Var {
